@@ -886,6 +886,9 @@ def _get_attribute(obj: Any, attr: str) -> Any:
     """
     if is_private_attribute(attr):
         raise AttributeError("attempt to access private attribute '%s'" % attr)
+    elif inspect.isdatadescriptor(getattr(obj.__class__, attr, None)):
+        # properties are only reachable via the attribute get/set requests; don't run the getter here
+        raise AttributeError("attempt to access unexposed attribute '%s'" % attr)
     else:
         obj = getattr(obj, attr)
     if getattr(obj, "_pyroExposed", False):
